@@ -526,6 +526,54 @@ func (e *fnEnc) call(st *state, at ssa.Value, c *ssa.CallCommon, instr ssa.Instr
 		e.checkFrameCall(st, c, key)
 		e.havocAll(st)
 	}
+	// callback-sorted: the order the comparison literal defines holds afterwards
+	if len(fc.SortedBy) > 0 && callee != nil {
+		for pi, prm := range callee.Params {
+			nexpr, ok := fc.SortedBy[prm.Name()]
+			if !ok || pi >= len(c.Args) {
+				continue
+			}
+			mc := asClosure(c.Args[pi])
+			if mc == nil {
+				continue
+			}
+			cfn := mc.Fn.(*ssa.Function)
+			cfc := e.V.C.Funcs[funcKey(cfn)]
+			if cfc == nil || len(cfn.Params) != 2 {
+				continue
+			}
+			var rhs Expr
+			for _, en := range cfc.Ensures {
+				if b, isBin := en.Expr.(*EBinary); isBin && b.Op == "<==>" {
+					if id, isId := b.X.(*EIdent); isId && id.Name == "result" {
+						rhs = b.Y
+						break
+					}
+				}
+			}
+			if rhs == nil {
+				continue
+			}
+			e.ctr++
+			qa, qb := fmt.Sprintf("q_sa_%d", e.ctr), fmt.Sprintf("q_sb_%d", e.ctr)
+			it := cfn.Params[0].Type()
+			// less(b, a): first parameter := b, second := a
+			cenvS := e.closureEnv(st, pre, mc, []tval{{term: qb, typ: it}, {term: qa, typ: it}})
+			cenvS.noDef = true
+			lessBA := cenvS.evalBool(rhs)
+			henv := e.calleeEnv(st, pre, c, callee, args)
+			n := henv.coerceInt(henv.eval(nexpr))
+			e.hasQuant = true
+			body := fmt.Sprintf("(=> (and (bvsle #x0000000000000000 %s) (bvslt %s %s) (bvslt %s %s)) (not %s))", qa, qa, qb, qb, n.term, lessBA)
+			// multi-pattern: the element reads at a and at b
+			pa, pb := firstSelectWith(lessBA, qa, qb), firstSelectWith(lessBA, qb, qa)
+			if pa != "" && pb != "" {
+				body = fmt.Sprintf("(! %s :pattern (%s %s))", body, pa, pb)
+			}
+			e.assume(st, fmt.Sprintf("(forall ((%s (_ BitVec 64)) (%s (_ BitVec 64))) %s)", qa, qb, body))
+			e.V.Assumed[fmt.Sprintf("sorted order after %s: forall a < b: !%s(b, a) with the literal's own postcondition", shortCallee(key), prm.Name())] = true
+		}
+	}
 	declRes(st)
 	for _, r := range results {
 		e.assumeWF(st, r.term, r.typ)
@@ -1182,4 +1230,28 @@ func (e *fnEnc) logSend(st *state, ch, val, cond string) {
 	mapCellSorts["sentlog"] = cs
 	h := e.heap(st, "sentlog", cs)
 	e.setHeap(st, "sentlog", cs, ite(cond, fmt.Sprintf("(store %s %s (store (select %s %s) %s true))", h, ch, h, ch, val), h))
+}
+
+// firstSelectWith: the first (select ...) subterm of t that mentions `with` and not `without`.
+func firstSelectWith(t, with, without string) string {
+	fs, err := parseSexps(t)
+	if err != nil || len(fs) != 1 {
+		return ""
+	}
+	var found string
+	var walk func(x *sx)
+	walk = func(x *sx) {
+		if x.list == nil || found != "" {
+			return
+		}
+		if x.head() == "select" && mentions(x, with) && !mentions(x, without) {
+			found = x.String()
+			return
+		}
+		for _, c := range x.list {
+			walk(c)
+		}
+	}
+	walk(fs[0])
+	return found
 }
